@@ -16,6 +16,12 @@ pub fn units(tier: &str, _seed: u64) -> Vec<String> {
     }
     v.push(unit(&[("shape", shapes[0]), ("n", "1"), ("fs", "BAL"), ("k", "sym"), ("lm", "1")]));
     v.push(unit(&[("shape", shapes[0]), ("n", "1"), ("fs", "CAN"), ("k", "0"), ("lm", "0"), ("rer", "1")]));
+    // load matching with two prioritised sources
+    v.push(unit(&[("shape", shapes[3]), ("n", "1"), ("fs", "PEN"), ("k", "sym"), ("lm", "1")]));
+    // RER with non-EPB electricity use next to other, non-renewable, energy: the surplus may be absorbed by the
+    // non-EPB use in one building and reach the grid in the other
+    v.push(unit(&[("shape", "U:ILU:ELECTRICIDAD;P:EL_INSITU;U:NEPB:ELECTRICIDAD;U:CAL:GASNATURAL"), ("n", "1"), ("fs", "PEN"), ("k", "0"), ("lm", "0"), ("rer", "1")]));
+    v.push(unit(&[("shape", "U:CAL:ELECTRICIDAD;P:EL_INSITU;P:EL_COGEN;U:COGEN:BIOMASA;U:ACS:GASNATURAL"), ("n", "1"), ("fs", "PEN"), ("k", "0"), ("lm", "0"), ("rer", "1")]));
     if tier == "thorough" {
         for s in shapes {
             for fs in ["BAL", "CAN", "CEU"] {
